@@ -32,6 +32,10 @@ CHECKS = {
          "The model reproduces all 47 leap-second examples of NaiveTime's rustdoc in its self-test, then every (hour, minute, second) tuple × 14 sub-second boundary values is fed to the constructors (exhaustive grid), and additions/subtractions are driven with ~370 durations per operand built to land exactly on, just before and just after the leap second, the next second and midnight, with TimeDelta and std::time::Duration, on NaiveTime, NaiveDateTime and through FixedOffset. Thorough covers every second of the day × 8 fractions × ~200 durations. Sampling elsewhere.",
          "Trusted: the timeline oracle in harness/src/props/c07.rs (self-tested against the rustdoc examples and a second formulation each run). NaiveDateTime differences across different dates with a leap operand are only checked for antisymmetry (the property does not define them).",
          "DESIGN.md §4 C07"),
+ "C16": ("runtime monitors around the real TZif/TZ-rule readers: model-driven writer + independent strict reader as accept/reject oracle with structural dump comparison through the guarded hook, panic/overflow monitor, counting global allocator (peak live bytes per parse), child processes for abort-prone header extremes and for the public Local route",
+         "Conforming files/strings generated from random models must be accepted with exactly the written transitions, types, leap records and rule; every system zoneinfo file likewise; per valid base file each category of invalidity the property names is produced by a targeted mutation and must be rejected; random/mutated bytes and strings must neither panic, overflow nor allocate beyond 64x the input; zones accepted along the way, and hostile-but-valid zones, must answer queries on both routes. Sampling of an unbounded input space with structure-aware generators; the per-file truncation set is exhaustive for small files.",
+         "Trusted: R-tz writer/strict reader/POSIX model (self-tested each run); the allocation bound is 64*len + 64 KiB. Mutants that coincidentally stay well-formed for the strict reference reader are not expected to be rejected. Offsets of 24 h or more are treated as out-of-range data (chrono's FixedOffset cannot carry them).",
+         "DESIGN.md §4 C16"),
 }
 NOT_YET = {}
 
